@@ -431,8 +431,10 @@ func runS(c SCase) error {
 			if wantPort != 0 && port != wantPort {
 				return fmt.Errorf("step %d: %s asked for port %d and was given %d, expected %d", i, name, req, port, wantPort)
 			}
+			acquiredItself := op.Group == 0
 			if op.Group > 0 {
 				if g == nil {
+					acquiredItself = true // the group's port is acquired from the port manager in the name of its first member
 					if o, ok := owned["tcp"][port]; ok {
 						return fmt.Errorf("step %d: new group given port %d already owned by %s", i, port, o)
 					}
@@ -447,7 +449,11 @@ func runS(c SCase) error {
 				}
 				owned[op.Proto][port] = name
 			}
-			last[op.Proto+name] = port
+			if acquiredItself {
+				// "its previous port": the port this name was granted by the port manager. A later member of a group shares
+				// the group's port without having been granted it; what the manager remembers for that name is unchanged.
+				last[op.Proto+name] = port
+			}
 			live[name] = &pxy{slot: op.Slot, proto: op.Proto, port: port, group: op.Group}
 			if e := truth(i, name); e != nil {
 				return e
